@@ -342,3 +342,65 @@ class Chi2Lemma(Contract):
 
 
 REGISTRY.append(Chi2Lemma())
+
+
+# ---- C15 share of sum -----------------------------------------------------------------
+class _ShareSum(Contract):
+    props = ("C15", "C04")
+    cls = None
+    direction = None
+
+    def __init__(self):
+        self.name = "%s:%s.blocks" % (MOD, self.cls)
+
+    def size_space(self, cfg):
+        return SliceEnv.size_space(True, True)
+
+    def run(self, B, cfg):
+        from .common import mk_dim
+
+        R, C = B.size("R", lo=1), B.size("C", lo=1)
+        S = B.tensor("sums", (R, C), maybe_nan=True)
+        rdim, rows = mk_dim(B, "rows", R)
+        cdim, cols = mk_dim(B, "cols", C)
+
+        class Env:
+            pass
+
+        env = Env()
+        env.R, env.C, env.rows, env.cols = R, C, rows, cols
+        cm = B.stub("cube_measures", cube_sum=B.stub("cube_sum", sums=S))
+        obj = B.new("%s:%s" % (MOD, self.cls), (rdim, cdim), B.stub("second_order_measures"), cm)
+        check_blocks(B, "blocks", obj.blocks, spec.share_sum_blocks(B, env, S, self.direction))
+
+
+for _cls, _d in (("_RowShareSum", "row"), ("_ColumnShareSum", "column"), ("_TotalShareSum", "total")):
+    REGISTRY.append(type("C_Share_" + _d, (_ShareSum,), dict(cls=_cls, direction=_d))())
+
+_mk("_Sums", ("C15", "C04"), None)
+REGISTRY.pop()  # placeholder removed below (sums has its own state)
+
+
+class SumsBlocks(_ShareSum):
+    cls = "_Sums"
+    direction = None
+
+    def run(self, B, cfg):
+        from .common import mk_dim
+
+        R, C = B.size("R", lo=1), B.size("C", lo=1)
+        S = B.tensor("sums", (R, C), maybe_nan=True)
+        rdim, rows = mk_dim(B, "rows", R)
+        cdim, cols = mk_dim(B, "cols", C)
+
+        class Env:
+            pass
+
+        env = Env()
+        env.R, env.C, env.rows, env.cols = R, C, rows, cols
+        cm = B.stub("cube_measures", cube_sum=B.stub("cube_sum", sums=S))
+        obj = B.new("%s:_Sums" % MOD, (rdim, cdim), B.stub("second_order_measures"), cm)
+        check_blocks(B, "blocks", obj.blocks, spec.sum_measure_blocks(B, env, S))
+
+
+REGISTRY.append(SumsBlocks())
